@@ -23,8 +23,18 @@ SYMPY_NAMES = ["E", "I", "S", "N", "O", "Q", "oo", "zoo", "nan", "beta", "gamma"
 NEUTRAL = ["V", "m_gate", "g_Na", "Cai", "k1", "alpha_m", "x", "y2", "Ito"]
 
 
-def template(ident: str, role: str):
-    """a small two-state model in which `ident` plays the given role and is really used"""
+def template(ident: str, role: str, usage: str = "used"):
+    """a small two-state model in which `ident` plays the given role; `usage="unread"`: it is declared /
+    defined but no expression reads it (what unused-variable removal looks at)"""
+    if usage == "unread":
+        if role == "state":
+            return (f"states({ident}=0.7, w=1.3)\nparameters(g=0.6, k=2.5)\ni_a = g*w + k\ni_b = i_a*w - w*w\n"
+                    f"d{ident}_dt = i_b - g*w\ndw_dt = k*(i_a - w)\n")
+        if role == "parameter":
+            return ("states(v=0.7, w=1.3)\nparameters(" + ident + "=0.6, k=2.5)\ni_a = k*v + k\ni_b = i_a*w - v*k\n"
+                    "dv_dt = i_b - k*v\ndw_dt = k*(v - w)\n")
+        return (f"states(v=0.7, w=1.3)\nparameters(g=0.6, k=2.5)\n{ident} = g*v + k\ni_b = g*w - v*v\n"
+                f"dv_dt = i_b - g*v\ndw_dt = k*(v - w)\n")
     if role == "state":
         return (f"states({ident}=0.7, w=1.3)\nparameters(g=0.6, k=2.5)\ni_a = g*{ident} + k\ni_b = i_a*w - {ident}*{ident}\n"
                 f"d{ident}_dt = i_b - g*{ident}\ndw_dt = k*({ident} - w)\n")
@@ -79,11 +89,13 @@ def c_values(ctx: Ctx, code: str, rename: dict, tag: str):
 def c19_case(ctx: Ctx, case: dict):
     ident, role, backend = case["ident"], case["role"], case.get("backend", "numpy")
     neutral = case.get("neutral") or {"state": "v", "parameter": "g", "intermediate": "i_a"}[role]
-    text = template(ident, role)
-    ref_text = template(neutral, role)
-    ctx.case(f"{ident}/{role}/{backend}", True, sample={"ident": ident, "role": role, "backend": backend, "text": text})
+    usage, ru = case.get("usage", "used"), bool(case.get("remove_unused", False))
+    text = template(ident, role, usage)
+    ref_text = template(neutral, role, usage)
+    ctx.case(f"{ident}/{role}/{backend}/{usage}/{ru}", True, sample={"ident": ident, "role": role, "backend": backend, "text": text,
+                                                                      "usage": usage, "remove_unused": ru})
     schemes = [Scheme.explicit_euler, Scheme.generalized_rush_larsen]
-    key = f"C19/{backend}/{ident}/{role}"
+    key = f"C19/{backend}/{ident}/{role}" + ("/unread" if usage == "unread" else "") + ("/remove-unused" if ru else "")
     try:
         ode = common.load(text)
     except Exception as ex:
@@ -93,11 +105,11 @@ def c19_case(ctx: Ctx, case: dict):
     rename = {neutral: ident}
     if backend in ("numpy", "jax"):
         try:
-            code = common.py_code(ode, backend=backend, scheme=schemes)
+            code = common.py_code(ode, backend=backend, scheme=schemes, remove_unused=ru)
         except Exception as ex:
             ctx.count(f"rejected_at_codegen/{type(ex).__name__}")
             return
-        ref_code = common.py_code(ref_ode, backend=backend, scheme=schemes)
+        ref_code = common.py_code(ref_ode, backend=backend, scheme=schemes, remove_unused=ru)
         try:
             got = values_numpy(code, rename)
         except Exception as ex:
@@ -116,11 +128,11 @@ def c19_case(ctx: Ctx, case: dict):
                     return
     else:
         try:
-            code = common.c_code(ode, scheme=schemes)
+            code = common.c_code(ode, scheme=schemes, remove_unused=ru)
         except Exception as ex:
             ctx.count(f"rejected_at_codegen/{type(ex).__name__}")
             return
-        ref_code = common.c_code(ref_ode, scheme=schemes)
+        ref_code = common.c_code(ref_ode, scheme=schemes, remove_unused=ru)
         tag = f"id{ctx.evaluations}"
         cm = common.CModule(code, ctx.tmp, tag)
         if not cm.ok:
@@ -185,6 +197,19 @@ def c19_run(ctx: Ctx):
         cases.append({"ident": i, "role": r, "backend": "jax"})
     for i, r in allc[:n_c]:
         cases.append({"ident": i, "role": r, "backend": "c"})
+    # the names every generated function uses for itself, declared but never read, with and without
+    # unused-variable removal (a removed unpacking must not be a reason to skip the name check)
+    core = ["dt", "t", "time", "states", "parameters", "values", "shape", "missing_variables", "numpy"]
+    for i in core:
+        for r in roles:
+            cases.append({"ident": i, "role": r, "backend": "numpy", "usage": "unread", "remove_unused": True})
+    for i in rng.sample(core, ctx.n(3, 9)):
+        cases.append({"ident": i, "role": rng.choice(roles), "backend": "numpy", "usage": "unread", "remove_unused": False})
+        cases.append({"ident": i, "role": rng.choice(roles), "backend": "numpy", "usage": "used", "remove_unused": True})
+    for i in rng.sample(["dt", "t", "time", "states", "parameters", "values"], ctx.n(3, 6)):
+        cases.append({"ident": i, "role": rng.choice(roles), "backend": "c", "usage": "unread", "remove_unused": True})
+    for i, r in allpy[:ctx.n(4, 80)]:
+        cases.append({"ident": i, "role": r, "backend": "numpy", "usage": "unread", "remove_unused": True})
     # random neutral identifiers: must never be flagged
     used = set()
     for _ in range(ctx.n(6, 60)):
